@@ -13,6 +13,7 @@ import O2P.Model.CookieJar
 import O2P.Model.Cookies
 import O2P.Model.Signed
 import O2P.Model.Serve
+import O2P.Model.Routes
 
 open O2P O2P.Go
 
@@ -29,7 +30,7 @@ def strs (alpha : List Char) : Nat → List Str
 def toyMac (k m : Str) : Str := (k ++ '#' :: m).reverse ++ natToStr (k.length * 7 + m.length)
 def toySha (m : Str) : Str := ('h' :: m) ++ natToStr m.length
 
-def E0 : Go.Ext := ⟨toyMac, toySha, 1000000 * 1000000000, Ck.splitHostPortGo⟩
+def E0 : Go.Ext := ⟨toyMac, toySha, 1000000 * 1000000000, Ck.splitHostPortGo, fun _ _ => false, fun _ => none, fun _ => none⟩
 
 def showM {α} (f : α → String) : Go.M α → String
   | .ok a => f a
@@ -69,7 +70,7 @@ def main : IO UInt32 := do
   let eps : List (Str × Str) := (["a.b", "x.a.b", "xa.b", "", "b", "a.b.", "evil.b"].map String.toList).flatMap fun h => [(h, []), (h, ['8', '0']), (h, ['8', '1'])]
   bad := bad + (← firstDiff "IsEndpointAllowed" (eps.flatMap fun e => domLists.map fun d => (e, d))
     (fun p => showPair p.1 ++ " " ++ qs p.2)
-    (fun p => showM bstr (Gen.Tr.IsEndpointAllowed E0 ⟨p.1.1, p.1.2⟩ p.2))
+    (fun p => showM bstr (Gen.Tr.IsEndpointAllowed E0 { hostname := p.1.1, port := p.1.2 } p.2))
     (fun p => bstr (Redirect.isEndpointAllowed p.1.1 p.1.2 p.2)))
   -- validator.go
   let emails := strs ['a', '@', '.', 'b'] 5 ++ (["u@a.b", "u@x.a.b", "u@a.b@c.d", "u@c.d@a.b", "u@xa.b", "a.b", "x.a.b", "u@", "@a.b", "u@a.b@"].map String.toList)
@@ -95,7 +96,7 @@ def main : IO UInt32 := do
   let cdLists : List (List Str) := ([[], ["a.b"], [".a.b"], ["x.a.b", "a.b"], ["a.b", "x.a.b"], ["b"], ["a.b:80"], [""]] : List (List String)).map (·.map String.toList)
   bad := bad + (← firstDiff "GetCookieDomain" (cdHosts.flatMap fun h => cdLists.map fun d => (h, d))
     (fun p => q p.1 ++ " " ++ qs p.2)
-    (fun p => showM q (Gen.Tr.GetCookieDomain E0 ⟨fun _ => [], p.1, [], [], none⟩ p.2))
+    (fun p => showM q (Gen.Tr.GetCookieDomain E0 { header := fun _ => [], host := p.1, urlScheme := [], requestURI := [], scope := none } p.2))
     (fun p => q ((Ck.getCookieDomain p.2 p.1).getD [])))
   -- pkg/requests/util: every combination of scope, forwarding header present / absent
   let hdrs : List (List (Str × Str)) := [[], [("X-Forwarded-Host".toList, ['f', 'h'])], [("X-Forwarded-Proto".toList, ['f', 'p'])],
@@ -103,7 +104,7 @@ def main : IO UInt32 := do
     [("X-Forwarded-Host".toList, [])], [("X-Forwarded-Host".toList, ['h'])], [("x-forwarded-host".toList, ['f', 'h'])]]
   let rcases : List (Bool × List (Str × Str)) := [true, false].flatMap fun rp => hdrs.map fun h => (rp, h)
   let mkR (h : List (Str × Str)) : O2P.Req := { method := ['G'], path := ['/'], uri := ['/', 'u'], headers := h, host := ['h'], scheme := ['s'] }
-  let mkG (rp : Bool) (h : List (Str × Str)) : Go.Req := ⟨(mkR h).header, ['h'], ['s'], ['/', 'u'], some ⟨rp⟩⟩
+  let mkG (rp : Bool) (h : List (Str × Str)) : Go.Req := { header := (mkR h).header, host := ['h'], urlScheme := ['s'], requestURI := ['/', 'u'], scope := some ⟨rp⟩ }
   let showRC : Bool × List (Str × Str) → String := fun p => "reverse-proxy=" ++ toString p.1 ++ " headers=" ++ toString (p.2.map fun kv => (String.ofList kv.1, String.ofList kv.2))
   bad := bad + (← firstDiff "GetRequestHost" rcases showRC
     (fun p => showM q (Gen.Tr.GetRequestHost E0 (mkG p.1 p.2))) (fun p => q (requestHost { reverseProxy := p.1 } (mkR p.2))))
@@ -114,7 +115,7 @@ def main : IO UInt32 := do
   bad := bad + (← firstDiff "IsForwardedRequest" rcases showRC
     (fun p => showM bstr (Gen.Tr.IsForwardedRequest E0 (mkG p.1 p.2))) (fun p => bstr (isForwardedRequest { reverseProxy := p.1 } (mkR p.2))))
   bad := bad + (← firstDiff "IsProxied(nil scope)" hdrs (fun h => showRC (false, h))
-    (fun h => showM bstr (Gen.Tr.IsProxied E0 ⟨(mkR h).header, ['h'], ['s'], ['/', 'u'], none⟩)) (fun _ => "false"))
+    (fun h => showM bstr (Gen.Tr.IsProxied E0 { header := (mkR h).header, host := ['h'], urlScheme := ['s'], requestURI := ['/', 'u'], scope := none })) (fun _ => "false"))
   -- pkg/encryption
   let secrets : List Str := ((List.range 50).flatMap fun n => [rep 'A' n, rep 'A' n ++ ['='], rep 'A' n ++ ['=', '='], rep 'A' n ++ ['!'], rep '_' n, rep '/' n])
   bad := bad + (← firstDiff "SecretBytes" secrets q
@@ -156,6 +157,38 @@ def main : IO UInt32 := do
   bad := bad + (← firstDiff "GenerateCodeChallenge" methods q
     (fun m => showM (fun r => if r.2 == none then "ok " ++ q r.1 else "error") (Gen.Tr.GenerateCodeChallenge E0 m ['v', 'e', 'r']))
     (fun m => match codeChallenge toySha m ['v', 'e', 'r'] with | some c => "ok " ++ q c | none => "error"))
+  -- skip-auth rules: toy regex engine = "subject contains the pattern"
+  let rx : Str → Str → Bool := fun pat subj => containsSub pat subj
+  let prq : Str → Option (Str × Str × Str) := fun u => if hasPrefix ['/'] u then some ([], [], (splitFirst '?' u).1) else none
+  let Er : Go.Ext := { E0 with regexMatch := rx, urlParseRequestURI := prq }
+  let routePool : List Go.Route := [⟨[], false, ['/', 'a']⟩, ⟨['G', 'E', 'T'], false, ['/', 'a']⟩, ⟨['G', 'E', 'T'], true, ['/', 'a']⟩, ⟨[], true, ['/', 'b']⟩, ⟨['P', 'O', 'S', 'T'], false, []⟩]
+  let routeLists : List (List Go.Route) := [[]] ++ routePool.map (fun r => [r]) ++ (routePool.flatMap fun r => routePool.map fun r2 => [r, r2])
+  let reqs : List (Str × Str) := (["GET", "get", "POST", "OPTIONS", ""] : List String).flatMap fun m => (["/a", "/b", "/a?x=/b", "/c?y=/a", "x", "x?/a", "//a/b"] : List String).map fun u => (m.toList, u.toList)
+  let mkReq (m u : Str) : Go.Req := { header := fun _ => [], host := [], urlScheme := [], requestURI := u, scope := some ⟨false⟩, method := m }
+  bad := bad + (← firstDiff "isAllowedRoute" (reqs.flatMap fun r => routeLists.map fun l => (r, l))
+    (fun p => q p.1.1 ++ " " ++ q p.1.2 ++ " rules=" ++ toString (p.2.map fun r => (String.ofList r.method, r.negate, String.ofList r.pathRegex)))
+    (fun p => showM bstr (Gen.Tr.isAllowedRoute Er p.2 (mkReq p.1.1 p.1.2)))
+    (fun p => bstr (O2P.isAllowedRoute rx (p.2.map fun r => ⟨r.method, r.negate, r.pathRegex⟩) p.1.1
+      (match Er.urlParseRequestURI p.1.2 with | some (_, _, pa) => pa | none => stripQuery p.1.2))))
+  -- IsValidRedirect with the hand model of the pattern as the regex engine and a toy URL parser
+  let up : Str → Option (Str × Str × Str) := fun u =>
+    let rest := if hasPrefix Redirect.httpsPrefix u then u.drop 8 else u.drop 7
+    let auth := rest.takeWhile (fun c => c != '/' && c != '?')
+    let hp := Redirect.splitHostPort auth
+    if auth.contains ' ' then none else some (hp.1, hp.2, rest.drop auth.length)
+  let vrx : Str → Str → Bool := fun _ s => Redirect.invalidRel s
+  let Ev : Go.Ext := { E0 with regexMatch := vrx, urlParse := up }
+  let rds : List Str := (["", "/", "/a", "//a", "/\\a", "/a//b", "/./a", "/ /a", "/a?b=//c", "http://a.b/", "https://a.b/x", "https://a.b:80/", "https://evil.b/", "https://xa.b/",
+    "https:///a.b", "http:/a.b", "ftp://a.b/", "https://a b/", "javascript:alert(1)", "https://x.a.b", "http://a.b:81"] : List String).map String.toList
+  bad := bad + (← firstDiff "IsValidRedirect" (rds.flatMap fun r => domLists.map fun d => (r, d)) (fun p => q p.1 ++ " " ++ qs p.2)
+    (fun p => showM bstr (Gen.Tr.IsValidRedirect Ev p.2 p.1))
+    (fun p => bstr (Redirect.isValidRedirect p.2 p.1 ((Ev.urlParse p.1).map fun t => (t.1, t.2.1)))))
+  -- CSRF cookie names
+  let states : List Str := (List.range 12).map (fun n => rep 's' n) ++ [("abcdefgh:/x".toList), ("abcdefg:/".toList), ("aaaaaaa:/".toList)]
+  bad := bad + (← firstDiff "GenerateCookieName" ([true, false].flatMap fun pr => states.map fun st => (pr, st)) (fun p => toString p.1 ++ " " ++ q p.2)
+    (fun p => showM q (Gen.Tr.GenerateCookieName E0 ⟨['c'], p.1⟩ p.2))
+    (fun p => let sub := stateSubstring { csrfPerRequest := p.1 } p.2
+              q (if sub = [] then ['c'] ++ "_csrf".toList else ['c'] ++ '_' :: sub ++ "_csrf".toList)))
   IO.println s!"trsearch: {bad} function(s) with a disagreement"
   return (if bad == 0 then 0 else 1)
 
